@@ -6,6 +6,7 @@
 (* model.                                                                    *)
 EXTENDS Domains
 VARIABLE c
+CONSTANT WithBind
 U == {1, 2, 3}
 Finite == { [cls |-> "finite", vals |-> s] : s \in { x \in BSeqsUpTo(U, 3) : BNoDup(x) } }
 Ranges == { [cls |-> "range", vals |-> [i \in 1..n |-> i - 1]] : n \in 0..3 }
@@ -14,7 +15,15 @@ SmallDoms == { d \in Doms : d.cls = "range" \/ d.vals \in {<<>>, <<1>>, <<2, 1>>
 Shapes(doms) == LET s == FacShape(doms) IN
    {s} \cup { [s EXCEPT ![i] = @ + 1] : i \in DOMAIN s } \cup { [s EXCEPT ![i] = @ - 1] : i \in { j \in DOMAIN s : s[j] > 0 } }
        \cup { Reverse(s), s \o <<1>>, <<1>> \o s, <<BNumel(s)>> } \cup (IF Len(s) > 0 THEN {Tail(s)} ELSE {})
+\* bindings: every edge-label type over {A, B} up to arity 3 (repeated node labels included), A and B bound to two
+\* of four domains (two of equal size but different content), every tuple of factor domains of arity 0..3
+BindDoms == { [cls |-> "range", vals |-> <<0, 1>>], [cls |-> "finite", vals |-> <<1, 2>>], [cls |-> "finite", vals |-> <<2, 1>>],
+              [cls |-> "range", vals |-> <<0, 1, 2>>] }
+FdFor(ty) == { f \in BSeqsUpTo(BindDoms, 3) : Len(f) \in {Len(ty), Len(ty) + 1} \/ (Len(ty) > 0 /\ Len(f) = Len(ty) - 1) }
+BindCases == UNION { { [k |-> "bind", type |-> ty, a |-> da, b |-> db, fdoms |-> fd] : da \in BindDoms, db \in BindDoms, fd \in FdFor(ty) } :
+                        ty \in BSeqsUpTo({"A", "B"}, 3) }
 Init == \/ \E d \in Doms : c = [k |-> "dom", d |-> d]
+        \/ (WithBind /\ c \in { x \in BindCases : x.a # x.b \/ x.a.cls = "range" })
         \/ \E d1, d2 \in Doms : c = [k |-> "pair", d1 |-> d1, d2 |-> d2]
         \/ \E ds \in BSeqsUpTo(SmallDoms, 2) : \E sh \in Shapes(ds) :
               c = [k |-> "fac", doms |-> ds, wshape |-> sh]
